@@ -398,8 +398,37 @@ def gen_triangle(rng: random.Random, shape=None):
     if rng.random() < 0.5:
         t = t.replace(values=lambda c: {k: (np.abs(x) + 1 if isinstance(x, np.ndarray) else abs(x) + 1)
                                         for k, x in c.values.items()})
+    # metadata whose details / loss_details hold None and other falsy values (the dicts of the frozen
+    # Metadata dataclass are mutable: an operation that "cleans" them in place changes its argument)
+    falsy = rng.random()
+    if falsy < 0.5:
+        import dataclasses
+
+        pool = [("note", None), ("zero", 0), ("empty", ""), ("off", False), ("memo", None)]
+        ex_d = dict(rng.sample(pool, rng.randint(1, 3)))
+        ex_l = dict(rng.sample(pool, rng.randint(0, 2)))
+        if falsy < 0.3:
+            ex_d["note"] = None
+        new_meta = {}
+        for m in t.metadata:
+            front = rng.random() < 0.5       # insertion order matters too
+            d = {**ex_d, **m.details} if front else {**m.details, **ex_d}
+            new_meta[m] = dataclasses.replace(m, details=d, loss_details={**m.loss_details, **ex_l})
+        try:
+            t2 = bermuda_triangle([c._base_replace(metadata=new_meta[c.metadata]) for c in t.cells])
+            if len(t2.metadata) == len(t.metadata):
+                t = t2
+                info["falsy_details"] = sorted(k for k, x in ex_d.items() if x is None) or ["(non-None falsy)"]
+        except Exception:  # noqa: BLE001  (incomparable metadata: keep the plain triangle)
+            pass
     info["shape"] = f"{v}/{b}/{'multi' if s > 1 else 'single'}"
     return t, info
+
+
+def bermuda_triangle(cells):
+    from bermuda import Triangle
+
+    return Triangle(cells)
 
 
 def run_case(case: dict, tmp, stop_at_first=True):
